@@ -12,7 +12,9 @@ EXPLANATION = (
     "instant_to_tstamp() of an event obtained by *peek* after a loop that pops only while the peeked event is strictly earlier than `now`, "
     "with no pop between that peek and the return; the run counter is bumped on the arming path only. R04.2 retirement reachability: both "
     "end-of-stream branches clear reschedule_cb; the never-run branch installs unsched; the child callback retires a finished task; "
-    "cancel stops the watcher before freeing; the callbacks registered for a task are task_cb/resched.")
+    "cancel stops the watcher before freeing; the callbacks registered for a task are task_cb/resched. R04.3 descriptor hygiene: every descriptor "
+    "run_task() opens in the daemon is closed again on every feasible path (path-sensitive walk), since a leak per execution eventually "
+    "makes later occurrences unstartable.")
 NOT_DECIDED = ("exactly-once, on-time and in-order execution under all interleavings of timer expiry, commands and child exits; collapse of missed "
                "occurrences; retirement timing — statements about histories of a libev loop and a clock")
 TRUSTED = ["clang 14 parser/CFG builder", "echse-facts extractor", "python rule engines in /verif/sa", "libev ev_periodic semantics"]
